@@ -91,7 +91,7 @@ func checkC11(c *Ctx) {
 		// 401 on the reject edge
 		ok401 := false
 		for _, s := range responseSinks(fn) {
-			if len(fail) > 0 && s.Instr.Block() == fail[0].To() && (s.Kind == respHelperErr || s.Kind == respStatusConst) && s.Status == 401 {
+			if len(fail) > 0 && fail[0].To().Dominates(s.Instr.Block()) && (s.Kind == respHelperErr || s.Kind == respStatusConst) && s.Status == 401 {
 				ok401 = true
 			}
 		}
@@ -128,6 +128,40 @@ func checkC11(c *Ctx) {
 				cf := ci.Common().StaticCallee()
 				return cf != nil && IsModuleFunc(cf) && p.FuncReaches(cf, func(x ssa.CallInstruction) bool { return isFieldCall(x, "Server", "Authorize") }, memo)
 			})
+			if dThrough, dFail, dCalls := authorizeEdges(fn, "Server"); len(dCalls) > 0 && len(gate) == 0 {
+				// the authorize step is part of the RPC method itself
+				memo2 := map[*ssa.Function]bool{}
+				bad := false
+				n := 0
+				for _, ci := range allCalls(fn, func(ci ssa.CallInstruction) bool {
+					if isStoreInvoke(ci) {
+						return true
+					}
+					cf := ci.Common().StaticCallee()
+					return cf != nil && IsModuleFunc(cf) && p.FuncReaches(cf, isStoreInvoke, memo2)
+				}) {
+					n++
+					if okp, path := p.MustPass(fn, ci, dThrough); !okp {
+						bad = true
+						c.Fail("C11.R1", key+":effect-behind-authorize", p.InstrPos(ci), "a call that can reach the Store is reachable without Authorize having accepted", path...)
+					}
+					if okn, path := p.NoPathFrom(dFail, ci, nil); !okn {
+						bad = true
+						c.Fail("C11.R1", key+":reject-has-no-effect", p.InstrPos(ci), "a Store-reaching call is reachable after Authorize rejected", path...)
+					}
+				}
+				if !bad {
+					c.Ok("C11.R1", key+":effects-behind-authorize", p.InstrPos(dCalls[0]), fmt.Sprintf("%d Store-reaching call(s), all behind Authorize's accept edge", n))
+				}
+				unauth := false
+				for _, sc := range allCalls(fn, func(ci ssa.CallInstruction) bool { return calleeIs(ci, "google.golang.org/grpc/status", "", "Error") }) {
+					if code, ok := intConst(sc.Common().Args[0]); ok && code == 16 && len(dFail) > 0 && dFail[0].To().Dominates(sc.Block()) {
+						unauth = true
+					}
+				}
+				c.Check(unauth, "C11.R1", key+":reject=>Unauthenticated", p.InstrPos(dCalls[0]), "reject answers codes.Unauthenticated", "the reject edge of Authorize does not answer codes.Unauthenticated")
+				continue
+			}
 			if len(gate) == 0 {
 				c.Fail("C11.R1", key+":authorize-consulted", p.Pos(fn.Pos()), "the RPC never reaches the Authorize hook")
 				continue
